@@ -31,9 +31,6 @@ loader.exec_module(chk)
 # C18 only: performance rewrites of parser functions introduce panic-capable sites (string slices by byte index, new index
 # helpers, loops driven by helper results) that neither the bounds prover nor a reviewed entry discharges (DESIGN 7)
 KNOWN_LIMIT = {("ref-R43", "C18"), ("ref-R45", "C18"), ("ref-R46", "C18"), ("ref-R55", "C18"), ("ref-R56", "C18"), ("ref-R83", "C18"),
-               # deep structural rewrites whose shape the narrow clauses of C20 / C21 cannot read (they fail closed): a scanner as a
-               # struct with a per-character method; the loader as an iterator pipeline and a splitter struct
-               ("ref-R83", "C20"), ("ref-R82", "C21"),
                # the three list walks rewritten as one iterator struct (`ListWalk`) and the constructor driven by `terms.len()`
                ("ref-R81", "C15"), ("ref-R81", "C16"), ("ref-R81", "C17")}
 
